@@ -450,6 +450,8 @@ where
         self.clear_tx.send(Signal::new(&wg)).map_err(|e| {
             CacheError::SendError(format!("fail to send clear signal to working thread {}", e))
         })?;
+        #[cfg(transparencies_stretto_verif)]
+        crate::verif::yield_point("clear:before_block");
         wg.wait();
 
         Ok(())
@@ -512,11 +514,15 @@ where
         self.insert_buf_tx
             .try_send(Item::Wait(Signal::new(&wg)))
             .map_err(|e| CacheError::SendError(format!("cache set buf sender: {}", e)))?;
+        #[cfg(transparencies_stretto_verif)]
+        crate::verif::yield_point("wait:after_send");
         // A close() that started after the marker was queued drains the buffer before the
         // processing thread exits; one that started before may never look at it.
         if self.is_closed.load(Ordering::SeqCst) {
             return Ok(());
         }
+        #[cfg(transparencies_stretto_verif)]
+        crate::verif::yield_point("wait:before_block");
         wg.wait();
         Ok(())
     }
@@ -539,6 +545,8 @@ where
         if let Some(prev) = prev {
             self.callback.on_exit(Some(prev.value.into_inner()));
         }
+        #[cfg(transparencies_stretto_verif)]
+        crate::verif::yield_point("rem:before_send");
         // If we've set an item, it would be applied slightly later.
         // So we must push the same item to `setBuf` with the deletion flag.
         // This ensures that if a set is followed by a delete, it will be
@@ -562,11 +570,17 @@ where
             return Ok(());
         }
 
+        #[cfg(transparencies_stretto_verif)]
+        crate::verif::yield_point("close:after_flag");
         self.clear_in()?;
+        #[cfg(transparencies_stretto_verif)]
+        crate::verif::yield_point("close:before_stop");
         // Block until processItems thread is returned
         self.stop_tx
             .send(())
             .map_err(|e| CacheError::SendError(format!("{}", e)))?;
+        #[cfg(transparencies_stretto_verif)]
+        crate::verif::yield_point("close:before_policy");
         self.policy.close()?;
         Ok(())
     }
@@ -587,6 +601,8 @@ where
         self.try_update(key, val, cost, ttl, only_update)?
             .map_or(Ok(false), |(index, item)| {
                 let is_update = item.is_update();
+                #[cfg(transparencies_stretto_verif)]
+                crate::verif::yield_point("ins:before_send");
                 // Attempt to send item to policy.
                 select! {
                     send(self.insert_buf_tx, item) -> res => {
@@ -658,27 +674,41 @@ where
     #[inline]
     pub(crate) fn spawn(mut self) -> JoinHandle<Result<(), CacheError>> {
         let ticker = tick(self.cleanup_duration);
+        #[cfg(transparencies_stretto_verif)]
+        let ticker = crate::verif::sync_ticker(ticker);
         spawn(move || loop {
+            #[cfg(transparencies_stretto_verif)]
+            crate::verif::yield_point("proc:loop");
             select! {
                 recv(self.insert_buf_rx) -> res => {
+                    #[cfg(transparencies_stretto_verif)]
+                    crate::verif::note("proc:arm:item", &[]);
                     if let Err(e) = self.handle_insert_event(res) {
                         tracing::error!("fail to handle insert event: {}", e);
                     }
                 },
                 recv(self.clear_rx) -> signal => {
+                    #[cfg(transparencies_stretto_verif)]
+                    crate::verif::note("proc:arm:clear", &[]);
                     if let Err(e) = self.handle_clear_event() {
                         tracing::error!("fail to handle clear event: {}", e);
                     }
                     drop(signal);
                 },
                 recv(ticker) -> msg => {
+                    #[cfg(transparencies_stretto_verif)]
+                    crate::verif::note("proc:arm:tick", &[]);
                     if let Err(e) = self.handle_cleanup_event(msg) {
                         tracing::error!("fail to handle cleanup event: {}", e);
                     }
                 },
                 recv(self.stop_rx) -> _ => {
+                    #[cfg(transparencies_stretto_verif)]
+                    crate::verif::note("proc:arm:stop", &[]);
                     // release whoever is still waiting on a marker in the buffer
                     let _ = CacheCleaner::new(&mut self).clean();
+                    #[cfg(transparencies_stretto_verif)]
+                    crate::verif::note("proc:exit", &[]);
                     return Ok(());
                 },
             }
@@ -688,8 +718,14 @@ where
     #[inline]
     pub(crate) fn handle_clear_event(&mut self) -> Result<(), CacheError> {
         let res = CacheCleaner::new(self).clean();
+        #[cfg(transparencies_stretto_verif)]
+        crate::verif::yield_point("proc:clear:after_drain");
         self.policy.clear();
+        #[cfg(transparencies_stretto_verif)]
+        crate::verif::yield_point("proc:clear:after_policy");
         self.store.clear();
+        #[cfg(transparencies_stretto_verif)]
+        crate::verif::yield_point("proc:clear:after_store");
         self.metrics.clear();
         res
     }
